@@ -5,7 +5,7 @@ import time
 import z3
 
 from .core import (Ctx, CCtx, SymBool, SymInt, SymStr, Dec, Unsupported, Budget, Infeasible,
-                   EngineAbort, B, jnorm)
+                   EngineAbort, B, jnorm, ReplayMismatch)
 
 
 def _model_values(ctx, m):
@@ -96,6 +96,12 @@ def explore(harness, *, pins=None, tier="quick", twin=False, max_paths=20000, ma
                 work.extend(ctx.alternatives)
                 ctx.claims_evaluated = before
                 continue
+            except Exception as e:      # the library raised something the harness does not expect
+                m = ctx.model()
+                if m is not None:
+                    ctx.claims_evaluated += 1
+                    ctx.obs.append(("exception", type(e).__name__))
+                    ctx.found.append(("unexpected-exception:" + type(e).__name__, m))
             work.extend(ctx.alternatives)
             for label, m in ctx.found:
                 res.violations.append(dict(label=label, choices=dict(ctx.choices), values=_model_values(ctx, m),
@@ -125,8 +131,14 @@ def run_concrete(harness, values, choices, tier="quick"):
     """Run the same harness on plain values (the library is imported WITHOUT instrumentation by the caller)."""
     ctx = CCtx(values, choices, tier=tier)
     Ctx.cur = None
-    bad = harness(ctx)
-    if bad is not None:
-        ctx.claim("final", bad)
+    try:
+        bad = harness(ctx)
+        if bad is not None:
+            ctx.claim("final", bad)
+    except ReplayMismatch:
+        raise
+    except Exception as e:
+        ctx.obs.append(("exception", type(e).__name__))
+        ctx.violated.append("unexpected-exception:" + type(e).__name__)
     return dict(violated=list(ctx.violated), assumed_ok=ctx.assumed_ok, observed=norm([[n, v] for n, v in ctx.obs]),
                 choices=ctx.choices)
